@@ -323,6 +323,7 @@ func (t *table) applyFields(fields core.Fields) {
 	t.fieldsMutex.Unlock()
 	if fieldsChanged {
 		if !t.Virtual && !t.db.opts.Passthrough {
+			verifFieldsSent(t.rowStore)
 			t.rowStore.fieldUpdates <- fields
 		}
 		t.log.Debugf("Updated fields to %v", fields)
